@@ -311,6 +311,9 @@ func (c *FnCtx) assignFieldPath(env *Env, baseExpr ast.Expr, index []int, v Val,
 	for k := len(steps) - 1; k >= 0; k-- {
 		s := steps[k]
 		if s.ptr {
+			if _, stt, ok := c.structOf(s.t); ok {
+				c.guardedAccess(env, s.val.T, s.t, stt, s.f, true, n)
+			}
 			c.writeField(env.st, s.val.T, s.t, s.f, nv.T)
 			return
 		}
